@@ -77,6 +77,13 @@ type serverConn struct {
 	// channel.
 	writeStop chan struct{}
 
+	// writeGone is closed when the write loop has returned, which it also does
+	// on its own when a write fails. Nobody takes frames out of writer after
+	// that, so a send into it must not wait: a peer that stopped reading and
+	// then went away left the read loop and the stream loop parked on a full
+	// writer for good, and ServeConn never returned.
+	writeGone chan struct{}
+
 	// handlerDone carries a stream back to the stream loop once its handler has
 	// returned. Handlers run on their own goroutines so that a slow request
 	// does not hold up the other streams on the connection, but everything the
@@ -143,6 +150,7 @@ func (sc *serverConn) Serve() error {
 	verifServerConn(sc)
 	sc.closer = make(chan struct{}, 1)
 	sc.writeStop = make(chan struct{})
+	sc.writeGone = make(chan struct{})
 	sc.handlerDone = make(chan *Stream, 128)
 	sc.handlerStop = make(chan struct{})
 	// Created disarmed. time.NewTimer(0) fires at once, and with no read
@@ -181,6 +189,7 @@ func (sc *serverConn) Serve() error {
 
 	go func() {
 		defer close(writeDone)
+		defer close(sc.writeGone)
 
 		// defer closing the connection in the writeLoop in case the writeLoop panics
 		defer func() {
@@ -1728,6 +1737,9 @@ func (sc *serverConn) write(fr *FrameHeader) {
 	case sc.writer <- fr:
 		verifQueued(false)
 	case <-sc.writeStop:
+		verifQueued(true)
+		ReleaseFrameHeader(fr)
+	case <-sc.writeGone:
 		verifQueued(true)
 		ReleaseFrameHeader(fr)
 	}
